@@ -60,8 +60,20 @@ type DerefRec struct {
 	Res  string `json:"res"`
 }
 
-func actorDir(host, name string) *ActorDir {
-	base := "https://" + host + "/u/" + name
+func actorDir(host, name string) *ActorDir { return actorDirS("https", host, name) }
+
+// actorDirS: actors whose name starts with 'q' have their boxes addressed through a query string
+// (https://host/boxes?user=quinn&box=inbox), a legal shape for box IRIs.
+func actorDirS(scheme, host, name string) *ActorDir {
+	if scheme == "" {
+		scheme = "https"
+	}
+	base := scheme + "://" + host + "/u/" + name
+	if strings.HasPrefix(name, "q") {
+		q := scheme + "://" + host + "/boxes?user=" + name + "&box="
+		return &ActorDir{Name: name, ID: base, Inbox: q + "inbox", Outbox: q + "outbox",
+			Followers: q + "followers", Following: q + "following", Liked: q + "liked"}
+	}
 	return &ActorDir{Name: name, ID: base, Inbox: base + "/inbox", Outbox: base + "/outbox",
 		Followers: base + "/followers", Following: base + "/following", Liked: base + "/liked"}
 }
@@ -86,7 +98,7 @@ func buildWorld(s *Sim, ws *WorldSpec) *World {
 		srv.Clock = &SimClock{s: s, srv: srv}
 		srv.App = &SimApp{s: s, srv: srv}
 		for _, name := range sp.Actors {
-			a := actorDir(sp.Host, name)
+			a := actorDirS(sp.Scheme, sp.Host, name)
 			srv.Actors = append(srv.Actors, a)
 			srv.DB.put(a.ID, actorDoc(a))
 			srv.DB.put(a.Inbox, J{"@context": asCtx, "type": "OrderedCollectionPage", "id": a.Inbox})
@@ -108,7 +120,11 @@ func buildWorld(s *Sim, ws *WorldSpec) *World {
 		default:
 			srv.Plain = pub.NewSocialActor(srv.App, srv.App, srv.DB, srv.Clock)
 		}
-		srv.Handler = pub.NewActivityStreamsHandler(srv.DB, srv.Clock)
+		if sp.Scheme == "" || sp.Scheme == "https" {
+			srv.Handler = pub.NewActivityStreamsHandler(srv.DB, srv.Clock)
+		} else {
+			srv.Handler = pub.NewActivityStreamsHandlerScheme(srv.DB, srv.Clock, sp.Scheme)
+		}
 		w.Servers[sp.Host] = srv
 		w.Order = append(w.Order, sp.Host)
 	}
@@ -282,6 +298,9 @@ func (w *World) httpReq(rs *ReqSpec, a *ActorDir, host string) *http.Request {
 		hdr.Set("Accept", ctLD)
 	}
 	u := &url.URL{Path: path}
+	if i := strings.IndexByte(path, '?'); i >= 0 {
+		u = &url.URL{Path: path[:i], RawQuery: path[i+1:]}
+	}
 	r := &http.Request{Method: method, URL: u, Host: host, Header: hdr, Body: io.NopCloser(body), Proto: "HTTP/1.1"}
 	return r
 }
@@ -306,13 +325,26 @@ func (w *World) runRequest(t *Task, rs *ReqSpec) {
 	if a == nil && rs.Kind != "handler" {
 		panic("sim: unknown actor " + rs.Actor)
 	}
-	ctx := context.WithValue(context.Background(), ctxKey("task"), t.ID)
+	cctx, cancel := context.WithCancel(context.Background())
+	t.cancel = cancel
+	ctx := context.WithValue(cctx, ctxKey("task"), t.ID)
+	if t.Parent == nil {
+		t.Snap = srv.DB.snapshot()
+	}
 	w.s.logEv(Event{Task: t.ID, Srv: rs.Server, Kind: "req.start", ID: rs.Kind, Arg: rs.Body})
 	switch rs.Kind {
 	case "postInbox":
-		t.Handled, t.Err = srv.Plain.PostInbox(ctx, t.Rec, w.httpReq(rs, a, rs.Server))
+		if sc := srv.Spec.Scheme; sc != "" && sc != "https" {
+			t.Handled, t.Err = srv.Plain.PostInboxScheme(ctx, t.Rec, w.httpReq(rs, a, rs.Server), sc)
+		} else {
+			t.Handled, t.Err = srv.Plain.PostInbox(ctx, t.Rec, w.httpReq(rs, a, rs.Server))
+		}
 	case "postOutbox":
-		t.Handled, t.Err = srv.Plain.PostOutbox(ctx, t.Rec, w.httpReq(rs, a, rs.Server))
+		if sc := srv.Spec.Scheme; sc != "" && sc != "https" {
+			t.Handled, t.Err = srv.Plain.PostOutboxScheme(ctx, t.Rec, w.httpReq(rs, a, rs.Server), sc)
+		} else {
+			t.Handled, t.Err = srv.Plain.PostOutbox(ctx, t.Rec, w.httpReq(rs, a, rs.Server))
+		}
 	case "getInbox":
 		t.Handled, t.Err = srv.Plain.GetInbox(ctx, t.Rec, w.httpReq(rs, a, rs.Server))
 	case "getOutbox":
